@@ -32,9 +32,11 @@ func (c *RecConn) Read(p []byte) (int, error) {
 	}
 	return c.In.Read(p)
 }
-func (c *RecConn) Close() error                     { return nil }
-func (c *RecConn) LocalAddr() net.Addr              { return &net.TCPAddr{IP: net.IPv4(192, 0, 2, 1), Port: 443} }
-func (c *RecConn) RemoteAddr() net.Addr             { return &net.TCPAddr{IP: net.IPv4(203, 0, 113, 77), Port: 54321} }
+func (c *RecConn) Close() error        { return nil }
+func (c *RecConn) LocalAddr() net.Addr { return &net.TCPAddr{IP: net.IPv4(192, 0, 2, 1), Port: 443} }
+func (c *RecConn) RemoteAddr() net.Addr {
+	return &net.TCPAddr{IP: net.IPv4(203, 0, 113, 77), Port: 54321}
+}
 func (c *RecConn) SetDeadline(time.Time) error      { return nil }
 func (c *RecConn) SetReadDeadline(time.Time) error  { return nil }
 func (c *RecConn) SetWriteDeadline(time.Time) error { return nil }
